@@ -559,7 +559,25 @@ def _run_ijepa(run, spec):
                 "in_domain": in_domain, "model": [enc_lb, pred_ub], "sizes_per_step_pred_enc": a}, cap=6)
 
 
+class _Limited:
+    """the Run, except that at most PER_KEY witnesses per mechanism are written out (all are counted): a flood of one
+    mechanism must not use up the runner's witness cap and hide a different one"""
+    PER_KEY = 5
+
+    def __init__(self, run):
+        self._run = run
+
+    def __getattr__(self, name):
+        return getattr(self._run, name)
+
+    def violation(self, key, what, spec=None):
+        self._run.count(f"witnesses[{key}]")
+        if self._run.counters[f"witnesses[{key}]"] <= self.PER_KEY:
+            self._run.violation(key, what, spec)
+
+
 def run_case(run, spec):
+    run = _Limited(run)
     if spec["kind"] == "dino":
         _run_dino(run, spec)
     else:
